@@ -179,9 +179,18 @@ def check_snell(ctx, obs):
                "temperature_c": fl(o["tc"]) if "tc" in o else 20.0,
                "replay": {"kind": "snell", "crystal": o["id"], "pol": o["pol"], "ct": o["ct"], "cp": o["cp"], "tc": o.get("tc"), "lambda": o["lambda"],
                           "bphi": o["bphi"], "te": o["te"]}}
+        if o["gen"].startswith("config"):
+            which = o["gen"].split("_")[1]
+            rep["call"] = (f"{which.capitalize()}Config{{wavelength_nm, phi_deg: {fl(o['phi_deg']) if 'phi_deg' in o else math.degrees(fl(o['bphi']))!r}, theta_deg: None, "
+                           f"theta_external_deg: Some({fl(o['te_deg'])!r}), ..}}.try_as_beam(&setup) with pm_type {o.get('pm')}; then theta_external(&setup)")
+            rep["replay"] = None
         if "panic" in o:
-            ctx.violation("S5", f"{o['id']}: set_theta_external({fl(o['te_deg'])} deg) panicked: {o['panic'][:160]}", {"kind": "snell_panic"}, rep)
+            ctx.violation("S5", f"{o['id']}: {'try_as_beam' if o['gen'].startswith('config') else 'set_theta_external'}({fl(o['te_deg'])} deg) failed: {o['panic'][:160]}", {"kind": "snell_panic"}, rep)
             continue
+        if o["gen"].startswith("config"):
+            if mod_2pi_diff(frac_of_hex(o["phi"]), frac_of_hex(o["bphi"])) > angle_tol(fl(o["bphi"])) or o["pol"] != o.get("want_pol", o["pol"]):
+                ctx.violation("S5", f"{o['id']}: beam from the {o['gen'].split('_')[1]} configuration has azimuth {fl(o['phi'])!r} / polarization {o['pol']}, "
+                              f"requested {fl(o['bphi'])!r} rad / {o.get('want_pol')}", {"kind": "config_beam_fields"}, rep)
         te, back, ti, n = fl(o["te"]), fl(o["back"]), fl(o["ti"]), fl(o["n"])
         rep.update({"read_back_deg": back / DEG, "theta_internal_rad": ti, "index_at_internal": n})
         # is the refracted beam next to an optic axis?  (there index_along returns 0 for a fraction of the directions — C02's
@@ -285,6 +294,20 @@ def check_units(ctx, obs):
         ctx.violation("S5", f"{o['id']} ({o['pol']}, crystal theta {fl(o['ct'])!r}): optimal_waist_position {fl(o['z'])!r} is not -L/(2 n_z) = {want!r} "
                       f"with n_z = index_along(z) = {fl(o['nz'])!r} (relative error {e:.2e}; {len(bad_waist)} of {len(waists)} set-ups)", {"kind": "waist_position"}, rep)
     check_spdc_waist(ctx, obs)
+    for o in [x for x in obs if x["kind"] == "cfgangles"]:
+        ctx.count("cfgangles")
+        ctx.seen(("cfgangles", o["id"], o["which"], o["phi_deg"], o["theta_deg"]))
+        rep = {"crystal": o["id"], "config": o["which"], "phi_deg": fl(o["phi_deg"]), "theta_deg": fl(o["theta_deg"])}
+        st = o["state"]
+        if st is None:
+            ctx.violation("S5", f"{o['which']} configuration with theta_deg failed to convert", {"kind": "config_beam_failed"}, rep)
+            continue
+        rep["state"] = state_of(st)
+        check_state(ctx, st, rep, f"{o['which'].capitalize()}Config::try_as_beam(phi_deg {fl(o['phi_deg'])!r}, theta_deg {fl(o['theta_deg'])!r})")
+        if mod_2pi_diff(frac_of_hex(st["phi"]), frac_of_hex(o["phi_req"])) > angle_tol(fl(o["phi_req"])) or \
+                mod_2pi_diff(frac_of_hex(st["theta"]), frac_of_hex(o["theta_req"])) > angle_tol(fl(o["theta_req"])):
+            ctx.violation("S5", f"{o['which']} configuration (phi_deg {fl(o['phi_deg'])!r}, theta_deg {fl(o['theta_deg'])!r}) gives azimuth {fl(st['phi'])!r}, "
+                          f"polar angle {fl(st['theta'])!r}", {"kind": "config_beam_fields"}, rep)
     return units, waists
 
 
@@ -555,6 +578,7 @@ def run(ctx):
                        "set_frequency / set_polarization / with_polarization / set_waist / PumpBeam::from; angle arguments: uniform, +-400 deg, multiples "
                        "of pi and 2 pi +- 1e-9, 0, -0, +-1e-20, +-1e-300, denormal, +-1e6, +-1e15, +-1e300), every intermediate state checked; Snell: 11 crystals x 2 "
                        "polarizations x {0, 1e-6, 13, 45, 79.999, 80 deg, uniform 0..80, log-uniform small} x random azimuth, crystal angles, in-window wavelength, "
+                       "the same through SignalConfig / IdlerConfig::try_as_beam (phi_deg != 0 incl. negative and > 360, theta_external_deg of either sign, all five phase-matching types, theta_deg path), "
                        "plus set-ups whose refracted beam runs along an optic axis (crystal tilt = internal angle +- {0, 1e-9 .. 1e-3}, azimuth pi); "
                        "unit conversions log-uniform; distinct = distinct (history id, step index, op, argument bits) / input bits")
     ctx.cov["clauses"] = {
